@@ -151,6 +151,7 @@ def main(chk, replay=None):
         logs = []
         for _ in range(r.randint(1, steps)):
             nxt, lg = vprogs.edits(r, eds[-1], r.randint(1, 2))
+            vprogs.discipline(eds[-1], nxt)
             eds.append(nxt)
             logs.append(lg)
         root = tempfile.mkdtemp(prefix="c01_", dir=chk.tmpdir())
